@@ -170,7 +170,7 @@ class World:
                 rep.disagree(f"c04 {name} initial", outs[0][:300], s.first[:300], case)
                 continue
             for i, (a, b) in enumerate(zip(s.states, outs[1:])):
-                if a != b and scen.canon_state(a) != scen.canon_state(b):
+                if not scen.same_state(a, b):
                     rep.disagree(f"c04 {name} step {i}: {s.events[i][:100]}", b[:400], a[:400], {**case, "side_events": s.events[: i + 1][-40:]})
                     break
             rep.dist["c04:model-steps"] += len(s.events)
